@@ -254,3 +254,98 @@ func ZZ_C04_ASCIIPoints()    { F32Inputs = true; roundTripASCII(modeling.PointTo
 func ZZ_C04_BinaryLETriangles() { roundTripBinary(ply.BinaryLittleEndian, modeling.TriangleTopology) }
 func ZZ_C04_BinaryBETriangles() { roundTripBinary(ply.BinaryBigEndian, modeling.TriangleTopology) }
 func ZZ_C04_BinaryLEPoints()    { roundTripBinary(ply.BinaryLittleEndian, modeling.PointTopology) }
+
+// custom MeshWriter configurations: which attributes are claimed by explicit property writers, the stored type of
+// the position (float / double), write-unspecified on or off. Whatever the header announces has to match the body:
+// the file must read back with the same corners.
+func customWriter(format ply.Format) {
+	withNormal := zz.Bool("mesh has normals")
+	cfg := cfgPosUV
+	if withNormal {
+		cfg = cfgPosNormalUV
+	}
+	m := symMesh(cfg, modeling.TriangleTopology, zz.Bound("V"), zz.Bound("T"))
+	double := zz.Bool("position stored as double")
+	posType := ply.Float
+	if double {
+		posType = ply.Double
+	}
+	props := []ply.PropertyWriter{
+		ply.Vector3PropertyWriter{ModelAttribute: modeling.PositionAttribute, Type: posType, PlyPropertyX: "x", PlyPropertyY: "y", PlyPropertyZ: "z"},
+	}
+	claimUV := zz.Bool("texcoord claimed by a property writer")
+	if claimUV {
+		props = append(props, ply.Vector2PropertyWriter{ModelAttribute: modeling.TexCoordAttribute, Type: ply.Float, PlyPropertyX: "s", PlyPropertyY: "t"})
+	}
+	claimNormal := zz.Bool("normal claimed by a property writer")
+	if claimNormal {
+		props = append(props, ply.Vector3PropertyWriter{ModelAttribute: modeling.NormalAttribute, Type: ply.Float, PlyPropertyX: "nx", PlyPropertyY: "ny", PlyPropertyZ: "nz"})
+	}
+	unspecified := zz.Bool("write unspecified properties")
+	w := ply.MeshWriter{Format: format, Properties: props, WriteUnspecifiedProperties: unspecified}
+	zz.Reach("input")
+	buf := zz.NewBuf()
+	err := w.Write(m, buf)
+	zz.Assert(err == nil, "MeshWriter.Write returned an error")
+	if err != nil {
+		return
+	}
+	back, err := ply.ReadMesh(buf.Reader(-1))
+	zz.Assert(err == nil, "ply.ReadMesh failed on the custom writer's output")
+	if err != nil {
+		return
+	}
+	zz.Reach("read-back")
+	zz.Assert(back.Topology() == modeling.TriangleTopology, "custom writer: topology preserved")
+	zz.Assert(back.PrimitiveCount() == m.PrimitiveCount(), "custom writer: primitive count preserved")
+	ii, oi := m.Indices(), back.Indices()
+	if ii.Len() != oi.Len() || ii.Len() == 0 {
+		return
+	}
+	zz.Assert(back.HasFloat3Attribute(modeling.PositionAttribute), "custom writer: positions present")
+	zz.Assert(back.HasFloat2Attribute(modeling.TexCoordAttribute), "custom writer: texture coordinates present")
+	if !back.HasFloat3Attribute(modeling.PositionAttribute) || !back.HasFloat2Attribute(modeling.TexCoordAttribute) {
+		return
+	}
+	p, q := m.Float3Attribute(modeling.PositionAttribute), back.Float3Attribute(modeling.PositionAttribute)
+	u, v := m.Float2Attribute(modeling.TexCoordAttribute), back.Float2Attribute(modeling.TexCoordAttribute)
+	for k := 0; k < ii.Len(); k++ {
+		x, y := p.At(ii.At(k)), q.At(oi.At(k))
+		if double && !F32Inputs {
+			zz.Assert(y.X() == x.X() && y.Y() == x.Y() && y.Z() == x.Z(), "custom writer: a position stored as double comes back exactly")
+		} else {
+			zz.Assert(y.X() == f32(x.X()) && y.Y() == f32(x.Y()) && y.Z() == f32(x.Z()), "custom writer: position of a corner is the float32 image")
+		}
+		a, b := u.At(ii.At(k)), v.At(oi.At(k))
+		zz.Assert(b.X() == f32(a.X()) && b.Y() == f32(a.Y()), "custom writer: texture coordinate of a corner is the float32 image")
+	}
+	if withNormal && claimNormal {
+		zz.Assert(back.HasFloat3Attribute(modeling.NormalAttribute), "custom writer: normals present")
+		if back.HasFloat3Attribute(modeling.NormalAttribute) {
+			n, o := m.Float3Attribute(modeling.NormalAttribute), back.Float3Attribute(modeling.NormalAttribute)
+			for k := 0; k < ii.Len(); k++ {
+				x, y := n.At(ii.At(k)), o.At(oi.At(k))
+				zz.Assert(y.X() == f32(x.X()) && y.Y() == f32(x.Y()) && y.Z() == f32(x.Z()), "custom writer: normal of a corner is the float32 image")
+			}
+		}
+	}
+	if withNormal && !claimNormal && unspecified {
+		// an unclaimed float3 attribute is stored as three scalar properties name_0..2 and comes back as the
+		// scalar attributes the file describes
+		n := m.Float3Attribute(modeling.NormalAttribute)
+		for c := 0; c < 3; c++ {
+			sn := fmt.Sprintf("%s_%d", modeling.NormalAttribute, c)
+			zz.Assert(back.HasFloat1Attribute(sn), "custom writer: scalar image of the unclaimed normal attribute present")
+			if back.HasFloat1Attribute(sn) {
+				o := back.Float1Attribute(sn)
+				for k := 0; k < ii.Len(); k++ {
+					zz.Assert(o.At(oi.At(k)) == f32(n.At(ii.At(k)).Component(c)), "custom writer: scalar image of the unclaimed normal is the float32 image")
+				}
+			}
+		}
+	}
+}
+
+func ZZ_C04_CustomWriterLE()    { customWriter(ply.BinaryLittleEndian) }
+func ZZ_C04_CustomWriterBE()    { customWriter(ply.BinaryBigEndian) }
+func ZZ_C04_CustomWriterASCII() { F32Inputs = true; customWriter(ply.ASCII) }
